@@ -80,9 +80,6 @@ func genC08(rc *RunCtx) (*C1, bool) {
 	sc.Full = full
 	sc.DeadlinePort = sc.Kind == KSerial && !sc.Flusher && t.Choose(2) == 1
 	sc.WrappedTimeouts = !t.Has("prefix") && t.Choose(3) == 0
-	if sc.Kind == KSerial && !t.Has("prefix") && t.Chance(1, 12) {
-		sc.ReadTimeout = []time.Duration{0, 50 * time.Nanosecond, time.Microsecond}[t.Choose(3)] // a read timeout shorter than any polling interval (the option takes what it is given)
-	}
 	switch sc.Fault {
 	case FIOErr, FWriteErr, FShortWrite, FWriteDeadlineErr:
 		sc.IOErr = genIOErr(t)
@@ -90,6 +87,10 @@ func genC08(rc *RunCtx) (*C1, bool) {
 	n := len(full)
 	// read timeout knob: keep stalls cheap most of the time
 	sc.ReadTimeout = []time.Duration{20 * time.Millisecond, 5 * time.Millisecond, 100 * time.Millisecond, 2 * time.Second, 500 * time.Millisecond}[t.Pick(4, 3, 2, 1, 1)]
+	if tiny := sc.Fault == FStall || sc.Fault == FEOF || sc.Fault == FIOErr || sc.Fault == FOversize; tiny && sc.Kind == KSerial && !t.Has("prefix") && t.Chance(1, 6) {
+		// (not with the cancellation faults: a context that is done and a timeout that has fired in the same select are picked between at random by Go)
+		sc.ReadTimeout = []time.Duration{0, 50 * time.Nanosecond, time.Microsecond}[t.Choose(3)] // a read timeout shorter than any polling interval (the option takes what it is given)
+	}
 	prefix := func() int {
 		if t.Has("prefix") {
 			return t.ChooseAs("prefix", n)
